@@ -1,6 +1,11 @@
 (* Model of hdrhist/hdr.go, hdrhist/window.go (definitions only; proofs live in
    Proofs/).  Numbers are Z; the Go code works on int64/int32, and the theorems
-   carry range hypotheses (hi < 2^62) under which no intermediate overflows.
+   carry range hypotheses: hi < 2^62, and for the int64 reading of the mask
+   ((subBucketCount-1) << unitMagnitude) also c_mask < 2^63, which lo < 2^45
+   implies (Props/FactsHdr.v, FactsHdr_mask_fits: the C12 theorems themselves hold
+   over Z for every lo; the corollaries over the definitions regenerated from
+   hdr.go carry the mask hypothesis explicitly).  Under these no intermediate
+   value of the Go code leaves its machine type.
 
    Float steps of hdrhist.New that are replaced by exact integer functions:
      subBucketCountMagnitude = ceil(log2(2*10^sigfigs))   -> Z.log2_up (2*10^s)
